@@ -86,6 +86,6 @@ Definition dispatch (cmd : string) (args : list sexp) : option sexp :=
   match cmd, args with
   | "hist", ops => option_map (fun ops => SL (run_trace init ops)) (dec_list_aux dec_op ops)
   | "last", ops => option_map (fun ops => run_keep init ops 0 []) (dec_list_aux dec_op ops)
-  | "fixed", [] => Some (SL [enc_bool fixed_D7; enc_bool fixed_D8])
+  | "fixed", [] => Some (SL [SA "D7"; SA "D8"; SA "D55"; SA "D56"])   (* defects whose repair the model assumes *)
   | _, _ => None
   end.
